@@ -273,3 +273,71 @@ func mirrorContracts(repo, verif string) error {
 	}
 	return nil
 }
+
+// implementations: the methods of named types in the loaded packages that
+// implement the interface method an abstract contract `(I).M` speaks about.
+// Methods that have a contract of their own are returned by name only.
+func (w *World) implementations(c *Contract) (impls []*ssa.Function, own []string, err string) {
+	key := c.Key
+	if !strings.HasPrefix(key, "(") || !strings.Contains(key, ").") {
+		return nil, nil, "contract-mismatch: `implementations` on " + key + ", which is not an interface method"
+	}
+	iname := key[1:strings.Index(key, ").")]
+	mname := key[strings.Index(key, ").")+2:]
+	tp := w.typesPkg(c.Pkg)
+	if tp == nil {
+		return nil, nil, "contract-mismatch: no package " + c.Pkg
+	}
+	obj := tp.Scope().Lookup(iname)
+	if obj == nil {
+		return nil, nil, "contract-mismatch: no type " + iname + " in " + c.Pkg
+	}
+	iface, ok := obj.Type().Underlying().(*types.Interface)
+	if !ok {
+		return nil, nil, "contract-mismatch: " + iname + " is not an interface"
+	}
+	for _, rel := range w.pkgOrder {
+		p := w.pkgs[rel]
+		if p == nil {
+			continue
+		}
+		var names []string
+		for n := range p.Members {
+			names = append(names, n)
+		}
+		sort.Strings(names)
+		for _, n := range names {
+			t, ok := p.Members[n].(*ssa.Type)
+			if !ok {
+				continue
+			}
+			named, ok := t.Type().(*types.Named)
+			if !ok || types.IsInterface(named) || named.TypeParams().Len() > 0 {
+				continue
+			}
+			if !types.Implements(named, iface) && !types.Implements(types.NewPointer(named), iface) {
+				continue
+			}
+			ms := types.NewMethodSet(types.NewPointer(named))
+			sel := ms.Lookup(p.Pkg, mname)
+			if sel == nil {
+				continue
+			}
+			mf, ok := sel.Obj().(*types.Func)
+			if !ok {
+				continue
+			}
+			fn := w.prog.FuncValue(mf)
+			if fn == nil || len(fn.Blocks) == 0 {
+				continue
+			}
+			ipkg, ikey := contractKey(fn)
+			if w.findContract(ipkg, ikey) != nil {
+				own = append(own, relOf(ipkg)+"."+ikey)
+				continue
+			}
+			impls = append(impls, fn)
+		}
+	}
+	return impls, own, ""
+}
